@@ -7,6 +7,8 @@ CONSTANTS
   Targets = {1, 2, 3, 4, 5, 10}
   DnsPort = {2, 5, 8}
   Allowed = {1, 2, 4, 5, 10}
+  Unsendable = {}
+  DisarmFirst = TRUE
   T = 300
   DNST = 17000
   Slack = 150
@@ -19,6 +21,7 @@ CONSTANTS
   Fam <- TrFam
   DgAlpha <- TrDg
   RpAlpha <- TrRp
+  MidAlpha <- NoMid
   Sync = TRUE
   Ticks = {}
   MaxNow = 0
